@@ -252,8 +252,9 @@ def main(ck):
       ck.discard('compile'); return
     except gx.Unsupported as e:
       ck.discard('unsupported'); return
-    if gx.known_mjx_crash(c, gm):
-      ck.discard('finding:elliptic-without-frictional-contact'); return
+    crash = gx.known_mjx_crash(c, gm)
+    if crash:
+      ck.discard(crash); return
     tm = c.tm
     pts = []
     for sd in seeds:
